@@ -7,7 +7,7 @@ ap.add_argument("prop"); ap.add_argument("n")
 ap.add_argument("--title", required=True); ap.add_argument("--needs", required=True)
 ap.add_argument("--caught", default=""); ap.add_argument("--missed", default=""); ap.add_argument("--note", default="")
 a = ap.parse_args()
-src = "/tmp/wt_%s/seeded" % a.prop
+src = os.environ.get("WT_PREFIX", "/tmp/wt_") + a.prop + "/seeded"
 dst = "/verif/seeded/%s-m%s" % (a.prop, a.n)
 os.makedirs(dst, exist_ok=True)
 shutil.copy(os.path.join(src, "mutant%s.patch" % a.n), os.path.join(dst, "patch.diff"))
